@@ -19,6 +19,7 @@ def run(ctx):
     ctx.rule("R1", "no call result of type io::Result<_> / e57::Result<_> is dropped or only tested (named exception: PagedWriter::drop)")
     ctx.rule("R2", "raw Read::read / Write::write calls are looped on, their count is compared with 0 to leave the loop and (on the raw device) advances the buffer; everything else uses read_exact / write_all / io::copy")
     ctx.rule("R3", "finalize_customized_xml returns the result of the final flush; PagedWriter::flush forwards writer.flush()")
+    ctx.rule("R5", "an Err result that was inspected (?, match, is_err) never leads to a successful return of the inspecting function")
     ctx.rule("R4", "Converter::{read,write,invalid,internal}_err map Err(e)/None to the matching Error variant with source = Some(e)/None")
     for cfg in ["lib", "lib_crc32c"]:
         prog, info = load_program(cfg, "e57")
@@ -28,5 +29,6 @@ def run(ctx):
         io_rules.raw_transfer_discipline(ctx, prog, "R2")
         io_rules.success_implies_flushed(ctx, prog, "R3")
         io_rules.converter_tables(ctx, prog, "R4")
+        io_rules.no_error_turned_into_success(ctx, prog, "R5")
     ctx.cfg = None
     io_rules.controls(ctx)
